@@ -15,6 +15,7 @@ import glob
 import json
 import os
 import random
+import re
 
 import langpipe
 import printer
@@ -25,6 +26,41 @@ NGEN = {"quick": 40, "thorough": 400}
 NSAMPLES = 16
 
 
+def order_table():
+    """Programs in which the compiler has to pick among several candidates or walks a collection of user declarations:
+    wherever the order of such a walk is not the order of the source text (a hash map, an interned id), two
+    compilations differ.  Each kind of declaration appears often enough for a random order to show."""
+    n = 8
+    t = {}
+    t["wild_clash"] = ("mod a {\n  pub fn f(x){ x + 1 }\n}\nmod b {\n  pub fn f(x){ x + 2 }\n}\nuse a::*\nuse b::*\n"
+                       "fn dsp(){ f(10) }\n")
+    t["wild_clash3"] = ("".join(f"mod m{i} {{\n  pub fn f(x){{ x + {i} }}\n  pub fn g{i}(x){{ x * {i + 2} }}\n  pub fn h(x){{ x - {i} }}\n}}\n"
+                                for i in range(4)) + "".join(f"use m{i}::*\n" for i in range(4))
+                        + "fn dsp(){ f(10) + h(100) * 1000 + g2(1) }\n")
+    t["use_multi"] = ("mod a {\n  pub fn f(x){ x + 1 }\n  pub fn g(x){ x + 2 }\n  pub fn h(x){ x + 3 }\n}\nuse a::{h, f, g}\n"
+                      "fn dsp(){ f(1) + g(10) * 100 + h(100) * 10000 }\n")
+    t["many_fns"] = "".join(f"fn q{i}(x){{ x * {i + 1} + {i} }}\n" for i in range(n)) + "fn dsp(){ " + " + ".join(
+        f"q{i}({i})" for i in range(n)) + " }\n"
+    t["many_globals"] = "".join(f"let g{i} = {i * 3 + 1}\n" for i in range(n)) + "fn dsp(){ " + " + ".join(
+        f"g{i} * {10 ** (i % 4)}" for i in range(n)) + " }\n"
+    t["many_fields"] = ("fn dsp(){\n  let r = {" + ", ".join(f"{nm} = {i + 1}" for i, nm in enumerate(
+        ["zeta", "alpha", "mid", "beta", "omega", "gamma", "kappa", "delta"])) + "}\n  r.zeta + r.alpha * 10 + r.omega * 100 + "
+        "r.delta * 1000 + r.mid * 10000\n}\n")
+    t["many_lambdas"] = ("fn dsp(){\n" + "".join(f"  let k{i} = |x| x * {i + 2}\n" for i in range(n)) + "  " + " + ".join(
+        f"k{i}({i + 1})" for i in range(n)) + "\n}\n")
+    t["many_modules"] = ("".join(f"mod m{i} {{\n  pub fn f(x){{ x + {i * 7} }}\n}}\n" for i in range(6)) + "fn dsp(){ " + " + ".join(
+        f"m{i}::f({i})" for i in range(6)) + " }\n")
+    t["many_states"] = ("fn cnt(i){ self + i }\nfn lag(x){ mem(x) }\nfn dsp(){\n" + "".join(
+        f"  let s{i} = {'cnt(' + str(i + 1) + ')' if i % 2 == 0 else 'lag(now * ' + str(i) + ')'}\n" for i in range(n)) + "  " + " + ".join(
+        f"s{i}" for i in range(n)) + "\n}\n")
+    t["many_variants"] = ("type Sh = A(float) | B(float) | C(float) | D(float) | E(float)\nfn val(s){\n  match s {\n"
+                          + "".join(f"    {v}(x) => x * {i + 2},\n" for i, v in enumerate("ABCDE")) + "  }\n}\n"
+                          "fn dsp(){ val(A(1)) + val(C(10)) + val(E(100)) + val(B(1000)) + val(D(3)) }\n")
+    t["many_aliases"] = ("".join(f"type alias T{i} = {'float' if i % 2 == 0 else '(float, float)'}\n" for i in range(6))
+                         + "fn f0(x: T0) -> T1 { (x, x + 1) }\nfn f2(p: T3) -> T4 { p.0 + p.1 }\nfn dsp(){ f2(f0(3)) }\n")
+    return t
+
+
 def corpus(chk, tier):
     files = sorted(glob.glob(os.path.join(vlib.REPO, "examples", "*.mmm"))
                    + glob.glob(os.path.join(vlib.REPO, "crates/lib/mimium-test/tests/mmm", "*.mmm")))
@@ -32,6 +68,7 @@ def corpus(chk, tier):
         # a spread of the fixtures: macros, records, sum types, modules, closures, scheduler ...
         files = files[::4]
     out = [(os.path.relpath(f, vlib.REPO), open(f).read(), f) for f in files]
+    out += [(f"table:{k}", v, None) for k, v in order_table().items()]
     reps = langpipe.generate(chk, "c15", {"Template": '"f"', "Budget": 3}, timeout=600)
     step = max(1, len(reps) // NGEN[tier])
     for i, r in enumerate(reps[::step][:NGEN[tier]]):
@@ -80,7 +117,11 @@ def observation(out):
     """what the property names: bytecode listing, WASM bytes, state layout, outputs (+ diagnostics, status)"""
     def g(k, f="digest"):
         return str((out.get(k) or {}).get(f))
-    return {"status": "/".join(str((out.get(k) or {}).get("status")) for k in ("bytecode", "wasm", "run_vm", "run_wasm")),
+    def st(k):
+        o = out.get(k) or {}
+        # a panic is identified by its message (numbers blanked): "its own panic" and "somebody else's" differ
+        return str(o.get("status")) + (":" + re.sub(r"\d+", "N", str(o.get("msg")))[:120] if o.get("status") == "panic" else "")
+    return {"status": "/".join(st(k) for k in ("bytecode", "wasm", "run_vm", "run_wasm")),
             "bytecode": g("bytecode"), "wasm": g("wasm"),
             "skel": g("run_vm", "skel") + "/" + g("run_wasm", "skel"),
             "out": g("run_vm", "out") + "/" + g("run_wasm", "out"),
